@@ -19,33 +19,36 @@
 (* by event, so a design error found here is an implementation error and a *)
 (* departure of the implementation from the design is seen there.          *)
 (***************************************************************************)
-EXTENDS Engine
+EXTENDS Engine, Json
 
 CONSTANTS MaxEvents,      \* events per behaviour
           MaxOpen         \* open control statements
 
-VARIABLES ch, sub, hist, phase, stack, cnt, nev, glines
-evars == <<ch, sub, hist, phase, stack, cnt, nev, glines>>
+VARIABLES ch, sub, hist, phase, stack, cnt, nev, glines,
+          log       \* history variable (not in the VIEW): the events fed and the chain after each, for replay into the code
+evars == <<ch, sub, hist, phase, stack, cnt, nev, glines, log>>
 
 Ev(rule, nl) == [rule |-> rule, nl |-> nl, nextLBrace |-> FALSE, opensControl |-> FALSE, opensType |-> FALSE,
                  isEnum |-> FALSE, leakedOuter |-> FALSE]
 
 Feed(ev) == LET r == Step(ch, sub, hist, ev) IN
             /\ ch' = r.ch /\ sub' = r.sub /\ hist' = Append(hist, ev.rule) /\ nev' = nev + 1
+            /\ log' = Append(log, [rule |-> ev.rule, nl |-> ev.nl, isEnum |-> ev.isEnum,
+                                    names |-> [i \in DOMAIN r.ch |-> r.ch[i].name], multi |-> [i \in DOMAIN r.ch |-> r.ch[i].multi],
+                                    lines |-> [i \in DOMAIN r.ch |-> r.ch[i].lines]])
 
 (* my own book-keeping: "brace" = a braced control body is open, "single" = a control statement waits for its statement *)
 RECURSIVE PopSingles(_)
 PopSingles(st) == IF st # <<>> /\ st[Len(st)] = "single" THEN PopSingles(SubSeq(st, 1, Len(st) - 1)) ELSE st
 
-EInit == /\ ch = GlobalChain /\ sub = NoSub /\ hist = <<>> /\ phase = "top" /\ stack = <<>> /\ cnt = 0 /\ nev = 0 /\ glines = 0
+EInit == /\ ch = GlobalChain /\ sub = NoSub /\ hist = <<>> /\ phase = "top" /\ stack = <<>> /\ cnt = 0 /\ nev = 0 /\ glines = 0 /\ log = <<>>
 
 TopTrivia == /\ phase = "top" /\ \E r \in Trivia : Feed(Ev(r, 1))
              /\ glines' = glines + 1 /\ UNCHANGED <<phase, stack, cnt>>
 FuncDecl == /\ phase = "top" /\ Feed([Ev("IsFuncDeclaration", 1) EXCEPT !.nextLBrace = TRUE])
             /\ phase' = "needbrace" /\ glines' = glines + 1 /\ cnt' = 0 /\ UNCHANGED stack
-(* trivia between the declarator and the brace (a comment line) must not confuse the history walk *)
-(* (its line is counted with the function: the Function scope exists from the declarator on)             *)
-DeclTrivia == /\ phase = "needbrace" /\ cnt = 0 /\ Feed(Ev("IsComment", 1)) /\ cnt' = 1 /\ UNCHANGED <<phase, stack, glines>>
+(* (no trivia event between the declarator and its brace: the replay showed that IsFuncDeclaration consumes a comment *)
+(* that follows the declarator as part of its own statement)                                                          *)
 FuncOpen == /\ phase = "needbrace" /\ Feed(Ev("IsBlockStart", 1))
             /\ phase' = "body" /\ stack' = <<>> /\ UNCHANGED <<cnt, glines>>
 BodyTrivia == /\ phase = "body" /\ \E r \in Trivia : Feed(Ev(r, 1))
@@ -74,7 +77,7 @@ Field == /\ phase = "type" /\ Feed(Ev("IsVarDeclaration", 1)) /\ cnt' = cnt + 1 
 TypeClose == /\ phase = "type" /\ Feed(Ev("IsBlockEnd", 1)) /\ phase' = "top" /\ glines' = glines + cnt + 1 /\ cnt' = 0 /\ UNCHANGED stack
 
 ENext == /\ nev < MaxEvents
-         /\ \/ TopTrivia \/ FuncDecl \/ DeclTrivia \/ FuncOpen \/ BodyTrivia \/ Simple \/ Control \/ ControlBrace \/ CloseBrace
+         /\ \/ TopTrivia \/ FuncDecl \/ FuncOpen \/ BodyTrivia \/ Simple \/ Control \/ ControlBrace \/ CloseBrace
             \/ FuncClose \/ TypeOpen \/ TypeBrace \/ Field \/ TypeClose
 ESpec == EInit /\ [][ENext]_evars
 
@@ -97,4 +100,6 @@ EView == <<ch, sub, HistAbs, phase, stack, cnt, glines>>
 NamesMatch == phase = "body" => /\ ch[2].name = "Function" /\ ch[2].multi
                                 /\ \A i \in 1..Len(stack) : /\ ch[2 + i].name = "ControlStructure"
                                                             /\ ch[2 + i].multi = (stack[i] = "brace")
+(* behaviours for the replay into the code (direction A for the engine): a closed function / type block just ended *)
+ExportInv == (phase = "top" /\ nev >= 3 /\ hist[Len(hist)] = "IsBlockEnd") => PrintT(<<"EXPORT", ToJson([log |-> log])>>)
 =============================================================================
